@@ -13,12 +13,13 @@ APIS = ("scgi", "fastcgi", "http")
 
 
 class Case:
-    __slots__ = ("api", "mode", "segs", "absreq", "tag", "out", "d", "impl", "hints", "model", "mflags", "mline", "reads", "hp", "nreq", "peer")
+    __slots__ = ("api", "mode", "segs", "absreq", "tag", "out", "d", "impl", "hints", "model", "mflags", "mline", "reads", "hp", "nreq", "peer", "absreqs")
 
     def __init__(self, api, mode, segs, absreq=None, tag="", nreq=None):
         self.api, self.mode, self.segs, self.absreq, self.tag = api, mode, [s for s in segs if s], absreq, tag
         self.nreq = nreq
         self.peer = None
+        self.absreqs = None     # keep-alive runs: one abstract request per request of the connection
         self.out = self.d = self.impl = self.model = self.mline = None
         self.hints, self.mflags, self.reads, self.hp = "", set(), [], None
 
@@ -130,11 +131,20 @@ def c02_judge_line(x):
             + x.mline)
 
 
-def view_judge_line(x):
+def view_judge_lines_seq(x):
+    """keep-alive run: one J view line per request, or None when the number of answered requests is not the number sent"""
+    outs = x.impl.split(" | ")[0].split(" ; ") if x.impl else []
+    if len(outs) != len(x.absreqs) or not all(o.startswith("app ") for o in outs):
+        return None
+    return [view_judge_line(x, a, o) for a, o in zip(x.absreqs, outs)]
+
+
+def view_judge_line(x, absreq=None, o=None):
     """J view line for a well-formed request whose echo came back"""
-    r, q, ck = x.absreq
+    r, q, ck = absreq if absreq is not None else x.absreq
     f = absreq_judge_fields(r, q, ck)
-    o = x.impl.split(" | ")[0]
+    if o is None:
+        o = x.impl.split(" | ")[0]
     if not o.startswith("app ") or " ; " in o:
         return None
     kv = dict(w.split("=", 1) for w in o.split()[1:])
@@ -159,6 +169,7 @@ def pick_diverse(bad, n):
 def clone_case(x):
     y = Case(x.api, x.mode, x.segs, absreq=x.absreq, tag=x.tag, nreq=x.nreq)
     y.peer = x.peer
+    y.absreqs = x.absreqs
     return y
 
 
